@@ -250,10 +250,12 @@ func nonTrivial(off, n, l, u uint64) bool {
 // ---- executor
 
 type handle struct {
-	f    *go9p.File
-	file int
-	mode uint8
-	off  uint64
+	f      *go9p.File
+	file   int
+	mode   uint8
+	off    uint64
+	atOpen uint64 // length of the file when this fid was opened / created
+	wrote  bool   // this fid has itself extended the file since
 }
 
 type held struct {
@@ -307,9 +309,35 @@ func (r *runner) checkDisk(i int, when string) error {
 	return nil
 }
 
-func (r *runner) classify(kind string, off, n uint64, l uint64) {
+// grown classifies a read through a fid that was opened before the file
+// reached its present length and that touches the part added since.
+func grown(h *handle, kind string, off, n, l uint64) string {
+	switch kind {
+	case "cread", "read", "readat", "readn":
+	default:
+		return ""
+	}
+	if l <= h.atOpen || off >= l || n == 0 || off+n <= h.atOpen {
+		return ""
+	}
+	at := "across the old end"
+	if off >= h.atOpen {
+		at = "beyond the old end"
+	}
+	if h.wrote {
+		return "read through the fid that extended the file, " + at
+	}
+	return "read through a fid opened before another fid extended the file, " + at
+}
+
+func (r *runner) classify(h *handle, kind string, off, n uint64, l uint64) {
 	hx.Eval() // one evaluation per checked operation
 	hx.Label(fmt.Sprintf("op=%s msize=%d", kind, r.nm))
+	g := grown(h, kind, off, n, l)
+	if g != "" {
+		hx.Label(g)
+		hx.NonTrivial(r.nm, r.c.Dotu, lenClass(l, r.u), kind, g, lenClass(h.atOpen, r.u), cntClass(n, r.u), endClass(off, n, l))
+	}
 	if nonTrivial(off, n, l, r.u) {
 		hx.NonTrivial(r.nm, r.c.Dotu, lenClass(l, r.u), kind, offClass(off, l, r.u), cntClass(n, r.u), endClass(off, n, l))
 		hx.ExtraAdd("nontrivial_ops", 1)
@@ -514,7 +542,11 @@ func (r *runner) step(o *Op) error {
 		if uint64(f.Fid.Iounit) != r.u {
 			return r.errf("Fid.Iounit is %d after open, expected msize-24 = %d", f.Fid.Iounit, r.u)
 		}
-		r.hs = append(r.hs, &handle{f: f, file: fi, mode: o.Mode})
+		hd := &handle{f: f, file: fi, mode: o.Mode, atOpen: uint64(len(r.models[fi]))}
+		if o.Mode&oTRUNC != 0 {
+			hd.atOpen = 0
+		}
+		r.hs = append(r.hs, hd)
 		hx.Extra("max_open_handles", maxOpen(len(r.hs)))
 		hx.Label("op=open")
 		if o.Mode&oTRUNC != 0 {
@@ -564,7 +596,7 @@ func (r *runner) step(o *Op) error {
 		if !canRead(h.mode) {
 			break
 		}
-		r.classify(o.Kind, o.Off, cnt, l)
+		r.classify(h, o.Kind, o.Off, cnt, l)
 		exp := want(m, o.Off, umin(cnt, r.u))
 		got, e := r.clnt.Read(h.f.Fid, o.Off, o.Count)
 		if e != nil {
@@ -592,7 +624,7 @@ func (r *runner) step(o *Op) error {
 		} else if off >= 1<<63 {
 			break // not expressible as int64
 		}
-		r.classify(o.Kind, off, cnt, l)
+		r.classify(h, o.Kind, off, cnt, l)
 		exp := want(m, off, umin(cnt, r.u))
 		buf := make([]byte, o.Count)
 		var n int
@@ -631,7 +663,7 @@ func (r *runner) step(o *Op) error {
 		if !canRead(h.mode) {
 			break
 		}
-		r.classify(o.Kind, o.Off, cnt, l)
+		r.classify(h, o.Kind, o.Off, cnt, l)
 		exp := want(m, o.Off, cnt)
 		buf := make([]byte, o.Count)
 		n, e := h.f.Readn(buf, o.Off)
@@ -674,7 +706,7 @@ func (r *runner) step(o *Op) error {
 		if off >= 1<<40 {
 			break // outside the grid: would create absurd sparse files
 		}
-		r.classify(o.Kind, off, cnt, l)
+		r.classify(h, o.Kind, off, cnt, l)
 		data := prf(o.Seed, int(o.Count))
 		keep := append([]byte(nil), data...)
 		expN := umin(cnt, r.u)
@@ -701,6 +733,9 @@ func (r *runner) step(o *Op) error {
 			return r.errf("%s modified the caller's buffer", o.Kind)
 		}
 		r.models[h.file] = mwrite(m, off, data[:expN])
+		if uint64(len(r.models[h.file])) > l {
+			h.wrote = true
+		}
 		if o.Kind == "write" {
 			h.off += expN
 		}
